@@ -48,6 +48,10 @@ CLAIMED = {
             "Seeded search on virtual time: (a) a real pair with channel-max values from {0,1,2,7,255,65535} on either side begins sessions up to and beyond the agreed limit, ends one at the limit and begins again - no begin frame may appear on a channel above min(local, remote), the excess begin must fail locally with the channel-max error and write nothing, the ended channel must be usable again; (b) a real client or listener faces a scripted peer advertising an idle time-out from {unset,0,1,50,333,1000,60000,2^32-1} ms for 8-38 periods with or without application traffic - gaps between consecutive frames at the transport tap must not exceed the advertised value; (c) a real client or listener with its own idle time-out T receives frames with gaps of T/8..7T/8 (optionally a last gap of T-delta), then silence - it must stay up while frames arrive in time and must tear the connection down and report the idle time-out within (T, 3T+5s] of silence.",
             "Trusted: the simulator, tokio's paused clock (1 ms timer resolution), refcodec. A gap equal to the advertised value (+3 ms) is accepted because the heartbeat period equals the advertised value; silence of exactly T is never generated.",
             "limit reference models on virtual time (frame-gap measurement at the tap, teardown iff silence > T) and channel-number model on the wire", "3 C17"),
+    "C14": ("fault_enumeration",
+            "Enumeration of cut points crossed with seeded schedules: (a) per seed (= network behaviour and task schedule) a fixed reference conversation of a real client and a real listener (open, two sessions, an unsettled sender with three batchable sends - one multi-frame - and a plain send, a receiver taking two deliveries, dispositions, detach, close, two ends, close) is run once for every byte offset of either direction (0..=2000 client->listener, 0..=720 listener->client; the conversation is 1935 and 680 bytes long) and each of three cut kinds (EOF, reset, stall then EOF); the cut plan is the run's enumeration case, outside the choice stream, so all runs of a seed share their prefix. Both applications carry on with their scripts whatever each call returns. (b) per seed one run of a real client against a scripted peer that closes, ends, detaches (closing and non-closing) with or without an error after a seeded number of frames while the application has batchable sends, outcomes or a recv pending. Oracles: every call completes within a virtual deadline and nothing panics; data-path calls issued after the failure was certainly processed fail; late attach/begin errors name the stop; connection.close() returns Ok only if both close frames crossed the wire before the cut; the peer's error description is carried by every failing link operation (session/connection stop) or by the first link method that notices (detach), and by session.end()/connection.close(); all engine tasks of both endpoints have terminated at the end.",
+            "Trusted: the simulator, refcodec. Exhaustive over offsets x kinds for the reference conversation per seed; the seeds (schedules, fragmentations) are sampled. A call that returns Ok after the cut is accepted when it raced the failure. The error-level check is by name of the error variants (Debug rendering).",
+            "cut-point enumeration over a reference conversation + scripted peer-initiated stops; completion, error-content and task-termination oracles", "3 C14"),
     "C06": ("exploration",
             "Seeded search over frames x frame sizes x stream fragmentations: two real Transports are joined by the simulated stream; the sender is given every performative kind with seeded field subsets and transfers (delivery-tags of 0..32 bytes, both values of the more flag) whose payloads are 0 bytes, below one frame, and within +-80 bytes of 1-4 frame body sizes, for max-frame-sizes 512..65536; the stream has seeded write capacity, chunked delivery (down to one byte, borders inside the 8-byte header) and short reads. An independent splitter and codec judge the tap: complete frames only, none larger than the peer's max-frame-size, each decoding to the performative that was sent, continuation payloads concatenating to the original with more set on all but the last frame and the original more flag on the last; the receiving Transport must yield the same frames whatever the fragmentation. One run in five replays the end-to-end pair workload under the frame-size and decodability models.",
             "Trusted: the simulator, refcodec. The expected performative value is obtained by decoding the crate's own encoding with the independent codec (C06 judges framing and splitting, not the value codec).",
